@@ -211,6 +211,7 @@ func (s *JavaFullListener) EnterInterfaceMethodDeclaration(ctx *parser.Interface
 	position := BuildPosition(ctx.BaseParserRuleContext, name)
 
 	method := &core_domain.CodeFunction{Name: name, ReturnType: typeType, Position: position}
+	resetMethodScope()
 	if buildMethodParameters(bodyDecl.FormalParameters(), method) {
 		return
 	}
@@ -299,6 +300,7 @@ func (s *JavaFullListener) EnterConstructorDeclaration(ctx *parser.ConstructorDe
 		Position:      position,
 	}
 
+	resetMethodScope()
 	parameters := ctx.FormalParameters()
 	if buildMethodParameters(parameters, method) {
 		return
@@ -344,6 +346,7 @@ func (s *JavaFullListener) EnterMethodDeclaration(ctx *parser.MethodDeclarationC
 		Position:        position,
 	}
 
+	resetMethodScope()
 	parameters := ctx.FormalParameters()
 	if buildMethodParameters(parameters, method) {
 		return
@@ -363,6 +366,16 @@ func buildMethodParameters(parameters parser.IFormalParametersContext, method *c
 		updateMethod(method)
 	}
 	return false
+}
+
+// a method or constructor starts with no parameters and no local variables of its own;
+// the methods of an anonymous class stay in the scope of the method that creates it
+func resetMethodScope() {
+	if currentType == "CreatorClass" {
+		return
+	}
+	localVars = make(map[string]string)
+	formalParameters = make(map[string]string)
 }
 
 func updateMethod(method *core_domain.CodeFunction) {
